@@ -2095,7 +2095,11 @@ def preprocess_file(
             out_line = ""
             for match in FRegex.WORD.finditer(line):
                 if match.group(0) in defs:
-                    out_line += line[i0 : match.start(0)] + defs[match.group(0)]
+                    def_value = defs[match.group(0)]
+                    if isinstance(def_value, tuple):
+                        # A function-like macro that is not invoked is not expanded
+                        def_value = "False"
+                    out_line += line[i0 : match.start(0)] + str(def_value)
                 else:
                     out_line += line[i0 : match.start(0)] + "False"
                 i0 = match.end(0)
